@@ -5,14 +5,25 @@
 // (UpdateParams, clearVotesAndPrevotes, UpdateExchangeRates) and of the four message handlers.
 // The model in coq/C11 has one handler per entry; an additional writer (a new message, a
 // precompile or wasm binding writing votes directly) is an entry the theorems do not cover.
+//
+// Second part: HOW THE REVEAL HASH PREIMAGE IS BUILT.  hash_preimage = the parts of the byte string
+// written into the hash inside types.GetAggregateVoteHash (literals and arguments, each argument with
+// the chain of functions applied to it on the way from the function parameter, outermost first);
+// vote_hash_calls = every call of GetAggregateVoteHash in non-test code of x/oracle/keeper with, per
+// argument, where it comes from (message field / parameter / expression) and the chain of functions
+// applied on the way.  On the pinned tree no function is applied to salt and rate string anywhere
+// (the model's preimage parameter pi is the identity).
 package main
 
 import (
 	"fmt"
 	"go/ast"
+	"go/token"
 	"io/fs"
 	"path/filepath"
+	"regexp"
 	"sort"
+	"strconv"
 	"strings"
 
 	. "verifharness/genlib"
@@ -115,6 +126,390 @@ func main() {
 			sep = ""
 		}
 		fmt.Printf("  (%s, %s, %s)%s\n", CoqString(w.store), CoqString(w.fn), CoqString(w.file), sep)
+	}
+	fmt.Println("].")
+	printPreimage(repo)
+}
+
+// ------------------------------------------------------------------ hash preimage
+
+type asg struct {
+	pos token.Pos
+	rhs ast.Expr
+	idx int  // position among the left-hand sides
+	one bool // len(Rhs) == len(Lhs): rhs is THE value; otherwise value number idx of a multi-value call
+}
+
+// resolver follows local definitions inside one function (straight-line approximation: the last
+// assignment textually before the use).
+type resolver struct {
+	params  map[string]int
+	assigns map[string][]asg
+}
+
+func newResolver(fd *ast.FuncDecl) *resolver {
+	r := &resolver{params: map[string]int{}, assigns: map[string][]asg{}}
+	n := 0
+	if fd.Type.Params != nil {
+		for _, f := range fd.Type.Params.List {
+			if len(f.Names) == 0 {
+				n++
+			}
+			for _, nm := range f.Names {
+				r.params[nm.Name] = n
+				n++
+			}
+		}
+	}
+	add := func(lhs []ast.Expr, rhs []ast.Expr, pos token.Pos) {
+		for i, l := range lhs {
+			id, ok := l.(*ast.Ident)
+			if !ok || id.Name == "_" {
+				continue
+			}
+			switch {
+			case len(rhs) == len(lhs):
+				r.assigns[id.Name] = append(r.assigns[id.Name], asg{pos, rhs[i], i, true})
+			case len(rhs) == 1:
+				r.assigns[id.Name] = append(r.assigns[id.Name], asg{pos, rhs[0], i, false})
+			}
+		}
+	}
+	ast.Inspect(fd.Body, func(nd ast.Node) bool {
+		switch x := nd.(type) {
+		case *ast.AssignStmt:
+			add(x.Lhs, x.Rhs, x.End()) // the right-hand side is evaluated before the assignment takes effect
+		case *ast.ValueSpec:
+			var lhs []ast.Expr
+			for _, nm := range x.Names {
+				lhs = append(lhs, nm)
+			}
+			if len(x.Values) > 0 {
+				add(lhs, x.Values, x.End())
+			}
+		}
+		return true
+	})
+	return r
+}
+
+func (r *resolver) def(name string, pos token.Pos) (asg, bool) {
+	var best asg
+	found := false
+	for _, a := range r.assigns[name] {
+		if a.pos <= pos && (!found || a.pos > best.pos) {
+			best, found = a, true
+		}
+	}
+	return best, found
+}
+
+// chain: where a value comes from and the functions applied on the way (outermost first)
+type chain struct {
+	src string
+	tr  []string
+}
+
+func (r *resolver) resolve(e ast.Expr, pos token.Pos, depth int) chain {
+	if depth > 24 {
+		return chain{src: "expr:" + Nospace(e)}
+	}
+	switch x := e.(type) {
+	case *ast.ParenExpr:
+		return r.resolve(x.X, pos, depth+1)
+	case *ast.BasicLit:
+		return chain{src: "lit:" + x.Value}
+	case *ast.Ident:
+		if a, ok := r.def(x.Name, pos); ok {
+			if !a.one && a.idx > 0 {
+				return chain{src: "expr:" + Nospace(a.rhs) + "#" + strconv.Itoa(a.idx)}
+			}
+			return r.resolve(a.rhs, a.rhs.Pos(), depth+1)
+		}
+		if i, ok := r.params[x.Name]; ok {
+			return chain{src: "param:" + strconv.Itoa(i)}
+		}
+		return chain{src: "ident:" + x.Name}
+	case *ast.SelectorExpr:
+		return chain{src: "field:" + x.Sel.Name}
+	case *ast.CallExpr:
+		if len(x.Args) == 1 && x.Ellipsis == token.NoPos {
+			c := r.resolve(x.Args[0], pos, depth+1)
+			return chain{c.src, append([]string{Nospace(x.Fun)}, c.tr...)}
+		}
+		if sel, ok := x.Fun.(*ast.SelectorExpr); ok && len(x.Args) == 0 {
+			c := r.resolve(sel.X, pos, depth+1)
+			return chain{c.src, append([]string{"." + sel.Sel.Name}, c.tr...)}
+		}
+	}
+	return chain{src: "expr:" + Nospace(e)}
+}
+
+type part struct {
+	lit bool
+	txt string // literal text, or the source of the argument
+	tr  []string
+}
+
+var verbRe = regexp.MustCompile(`%[^a-zA-Z%]*[a-zA-Z%]`)
+
+// parts flattens a string-building expression (fmt.Sprintf, +, strings.Join of a literal slice) into
+// literals and arguments.
+func (r *resolver) parts(e ast.Expr, pos token.Pos, depth int) []part {
+	arg := func(e ast.Expr) []part {
+		c := r.resolve(e, pos, depth+1)
+		if strings.HasPrefix(c.src, "lit:") && len(c.tr) == 0 {
+			if s, err := strconv.Unquote(strings.TrimPrefix(c.src, "lit:")); err == nil {
+				return []part{{lit: true, txt: s}}
+			}
+		}
+		return []part{{txt: c.src, tr: c.tr}}
+	}
+	if depth > 24 {
+		return arg(e)
+	}
+	switch x := e.(type) {
+	case *ast.ParenExpr:
+		return r.parts(x.X, pos, depth+1)
+	case *ast.Ident:
+		if a, ok := r.def(x.Name, pos); ok && (a.one || a.idx == 0) {
+			return r.parts(a.rhs, a.rhs.Pos(), depth+1)
+		}
+	case *ast.BinaryExpr:
+		if x.Op == token.ADD {
+			return append(r.parts(x.X, pos, depth+1), r.parts(x.Y, pos, depth+1)...)
+		}
+	case *ast.CallExpr:
+		fn := Nospace(x.Fun)
+		if fn == "fmt.Sprintf" && len(x.Args) >= 1 {
+			if bl, ok := x.Args[0].(*ast.BasicLit); ok {
+				if format, err := strconv.Unquote(bl.Value); err == nil {
+					var out []part
+					rest, k := format, 1
+					for {
+						loc := verbRe.FindStringIndex(rest)
+						if loc == nil {
+							break
+						}
+						if loc[0] > 0 {
+							out = append(out, part{lit: true, txt: rest[:loc[0]]})
+						}
+						verb := rest[loc[0]:loc[1]]
+						rest = rest[loc[1]:]
+						if verb == "%%" {
+							out = append(out, part{lit: true, txt: "%"})
+							continue
+						}
+						if k >= len(x.Args) {
+							out = append(out, part{txt: "expr:missing-argument", tr: []string{"fmt:" + verb}})
+							continue
+						}
+						p := r.parts(x.Args[k], pos, depth+1)
+						if verb != "%s" && verb != "%v" {
+							for i := range p {
+								if !p[i].lit {
+									p[i].tr = append([]string{"fmt:" + verb}, p[i].tr...)
+								}
+							}
+						}
+						out = append(out, p...)
+						k++
+					}
+					if rest != "" {
+						out = append(out, part{lit: true, txt: rest})
+					}
+					return out
+				}
+			}
+		}
+		if fn == "strings.Join" && len(x.Args) == 2 {
+			if cl, ok := x.Args[0].(*ast.CompositeLit); ok {
+				sep := r.parts(x.Args[1], pos, depth+1)
+				var out []part
+				for i, el := range cl.Elts {
+					if i > 0 {
+						out = append(out, sep...)
+					}
+					out = append(out, r.parts(el, pos, depth+1)...)
+				}
+				return out
+			}
+		}
+	}
+	return arg(e)
+}
+
+func mergeLits(ps []part) []part {
+	var out []part
+	for _, p := range ps {
+		if p.lit && p.txt == "" {
+			continue
+		}
+		if p.lit && len(out) > 0 && out[len(out)-1].lit {
+			out[len(out)-1].txt += p.txt
+			continue
+		}
+		out = append(out, p)
+	}
+	return out
+}
+
+func coqStrings(l []string) string {
+	q := make([]string, len(l))
+	for i, s := range l {
+		q[i] = CoqString(s)
+	}
+	return "[" + strings.Join(q, "; ") + "]"
+}
+
+func skipFile(frel string) bool {
+	base := filepath.Base(frel)
+	return base == "test_utils.go" || strings.Contains(frel, "testutil") || strings.Contains(frel, "/simulation/") ||
+		strings.HasSuffix(base, ".pb.go") || strings.HasSuffix(base, ".pb.gw.go")
+}
+
+func printPreimage(repo string) {
+	// (1) inside the helper: what is written into the hash
+	var pre []part
+	var sink []string
+	ctor := ""
+	sinks := map[string]bool{"Write": true, "WriteString": true, "Sum": true, "Sum256": true, "SumTruncated": true}
+	for _, fl := range ParseDir(filepath.Join(repo, "x/oracle/types")) {
+		for _, dcl := range fl.F.Decls {
+			fd, ok := dcl.(*ast.FuncDecl)
+			if !ok || fd.Body == nil || fd.Recv != nil || fd.Name.Name != "GetAggregateVoteHash" {
+				continue
+			}
+			r := newResolver(fd)
+			var first *ast.CallExpr
+			ast.Inspect(fd.Body, func(n ast.Node) bool {
+				c, ok := n.(*ast.CallExpr)
+				if !ok || first != nil {
+					return first == nil
+				}
+				if sel, ok := c.Fun.(*ast.SelectorExpr); ok && sinks[sel.Sel.Name] && len(c.Args) == 1 {
+					if id, isID := c.Args[0].(*ast.Ident); !(isID && id.Name == "nil") {
+						first = c
+						ctor = Nospace(c.Fun)
+						if x, ok := sel.X.(*ast.Ident); ok {
+							if a, ok := r.def(x.Name, c.Pos()); ok {
+								ctor = Nospace(a.rhs)
+							}
+						}
+					}
+				}
+				return true
+			})
+			if first == nil {
+				continue
+			}
+			// peel conversions between the string and the sink
+			var e ast.Expr = first.Args[0]
+			pos := first.Pos()
+			for {
+				if p, ok := e.(*ast.ParenExpr); ok {
+					e = p.X
+					continue
+				}
+				if id, ok := e.(*ast.Ident); ok {
+					if a, ok := r.def(id.Name, pos); ok && (a.one || a.idx == 0) {
+						e, pos = a.rhs, a.rhs.Pos()
+						continue
+					}
+				}
+				if c, ok := e.(*ast.CallExpr); ok && len(c.Args) == 1 {
+					fn := Nospace(c.Fun)
+					if fn == "[]byte" || fn == "string" {
+						sink = append(sink, fn)
+						e = c.Args[0]
+						continue
+					}
+				}
+				break
+			}
+			pre = mergeLits(r.parts(e, pos, 0))
+		}
+	}
+	fmt.Println("(* types.GetAggregateVoteHash: the byte string written into the hash, as (kind, text, functions applied")
+	fmt.Println("   outermost first); kind \"lit\" = literal text, \"arg\" = a value: param:<i> = parameter number i of the helper *)")
+	fmt.Println("Definition hash_preimage : list (string * string * list string) := [")
+	for i, p := range pre {
+		sep := ";"
+		if i == len(pre)-1 {
+			sep = ""
+		}
+		kind := "arg"
+		if p.lit {
+			kind = "lit"
+		}
+		fmt.Printf("  (%s, %s, %s)%s\n", CoqString(kind), CoqString(p.txt), coqStrings(p.tr), sep)
+	}
+	fmt.Println("].")
+	fmt.Printf("(* conversions between that string and the hash, and what the hash object is *)\nDefinition hash_sink : list string := %s.\nDefinition hash_object : string := %s.\n", coqStrings(sink), CoqString(ctor))
+
+	// (2) the on-chain callers of the helper
+	type hcall struct {
+		file, fn string
+		args     []chain
+	}
+	var calls []hcall
+	for _, fl := range ParseDir(filepath.Join(repo, "x/oracle/keeper")) {
+		frel, _ := filepath.Rel(repo, fl.Path)
+		if skipFile(frel) {
+			continue
+		}
+		for _, dcl := range fl.F.Decls {
+			fd, ok := dcl.(*ast.FuncDecl)
+			if !ok || fd.Body == nil {
+				continue
+			}
+			var r *resolver
+			ast.Inspect(fd.Body, func(n ast.Node) bool {
+				c, ok := n.(*ast.CallExpr)
+				if !ok {
+					return true
+				}
+				name := ""
+				switch f := c.Fun.(type) {
+				case *ast.SelectorExpr:
+					name = f.Sel.Name
+				case *ast.Ident:
+					name = f.Name
+				}
+				if name != "GetAggregateVoteHash" {
+					return true
+				}
+				if r == nil {
+					r = newResolver(fd)
+				}
+				hc := hcall{file: frel, fn: fd.Name.Name}
+				for _, a := range c.Args {
+					hc.args = append(hc.args, r.resolve(a, c.Pos(), 0))
+				}
+				calls = append(calls, hc)
+				return true
+			})
+		}
+	}
+	sort.SliceStable(calls, func(i, j int) bool {
+		if calls[i].file != calls[j].file {
+			return calls[i].file < calls[j].file
+		}
+		return calls[i].fn < calls[j].fn
+	})
+	fmt.Println("(* every call of GetAggregateVoteHash in non-test code of x/oracle/keeper: (file, enclosing function,")
+	fmt.Println("   per argument (where it comes from, functions applied outermost first)); field:<F> = field F of a message / struct *)")
+	fmt.Println("Definition vote_hash_calls : list (string * string * list (string * list string)) := [")
+	for i, c := range calls {
+		sep := ";"
+		if i == len(calls)-1 {
+			sep = ""
+		}
+		var as []string
+		for _, a := range c.args {
+			as = append(as, fmt.Sprintf("(%s, %s)", CoqString(a.src), coqStrings(a.tr)))
+		}
+		fmt.Printf("  (%s, %s, [%s])%s\n", CoqString(c.file), CoqString(c.fn), strings.Join(as, "; "), sep)
 	}
 	fmt.Println("].")
 }
